@@ -83,6 +83,11 @@ def contracts():
     modifies=['top._sched.update_schedule'], returns=None, property_ids=('C01','C02'), sample=False,
     note="assumes MAMBA_DAG is not set in the environment; random.shuffle = arbitrary permutation; lists Q / Es[u] / update_schedule abstracted by element sets with proved duplicate-freeness"))
   cs+=heuristic_contracts()
+  cs.append(Contract(f'{F}::SimpleSchedulePass.schedule_ff', view={'self':ObjK('Pass'),'top':TopT},
+    cases=[Case('any', requires='top._sched.present == top._sched.present', ensures="elems(top._sched.schedule_ff) == old(top.get_all_update_ff())",
+      source="C07: 'all registers change together': the flip-flop schedule used by every pass group except Mamba2020 is exactly the set of update_ff blocks (a list made from the set: no block twice)")],
+    modifies=['top._sched.schedule_ff'], returns=None, property_ids=('C07','C01'), sample=False,
+    note="list(<set>) is a duplicate-free list in arbitrary order; the hasattr(top, '_sched') guard is satisfied by the view"))
   return cs
 
 # ---------------------------------------------------------------------------------------------- HeuristicTopoPass (Kahn with a priority queue keyed by (branchiness, id))
